@@ -121,6 +121,12 @@ def map_families(kind, kt, vt, strat):
     pre = [S("BulkStore", lo=1, hi=thr + 1)] + [S(st, k, v()) for k in sorted(full)]
     add("F13-range-grow", dict(full, k50=(FOCUS2, 50)), pre,
         [[S("Range", fn="all")], [S(st, "k50", v())], [S(de, "k1")]])
+    full2 = {"k%d" % i: (FOCUS, i) for i in range(1, 2 * slots + 1)}
+    pre2 = [S("BulkStore", lo=1, hi=thr + 1)] + [S(st, k, v()) for k in sorted(full2, key=lambda x: int(x[1:]))]
+    add("F13b-range-grow-overflow-chain", dict(full2, k50=(FOCUS2, 50)), pre2,
+        [[S("Range", fn="all")], [S(st, "k50", v())], [S(ld, "k%d" % (2 * slots))]], final=["k1", "k%d" % (2 * slots), "k50"])
+    add("F12b-range-overflow-chain-writers", dict(full2, k50=(FOCUS, 50)), [S(st, k, v()) for k in sorted(full2, key=lambda x: int(x[1:]))],
+        [[S("Range", fn="all")], [S(de, "k%d" % (slots + 1)), S(st, "k50", v())], [S(st, "k%d" % (2 * slots), v())]], final=["k1", "k50"])
     add("F14-range-clear", {"k1": (FOCUS, 1), "k2": (OTHER, 2)}, [S(st, "k1", v()), S(st, "k2", v())],
         [[S("Range", fn="all")], [S("Clear"), S(st, "k1", v())]])
     # F15 mutating visitors (single thread and with a concurrent writer)
@@ -193,6 +199,9 @@ def cache_families(kind, kt, vt, strat):
     # G9 Range / Items || writers, expired entries never visited
     add("G9-range", dict(two, k3=(OTHER, 3)), exp1 + [S("Set", "k3", v(), d=50)],
         [[S("Range", fn="all")], [S("Set", "k1", v(), d=50), S("Delete", "k3")], [S("Items")]])
+    # Items / Range must not trust the size counter: it lags behind the slots (insert counted late, delete counted early)
+    add("G9c-items-vs-counter", dict(two, k3=(OTHER, 3)), [S("Set", "k2", v(), d=-2000000000)],
+        [[S("Set", "k3", v(), d=50)], [S("Delete", "k3")], [S("Items"), S("Count")]], final=["k2", "k3"])
     for fn in ("del", "upd", "ins", "clear", "load", "stop:1"):
         add("G9b-visitor-" + fn, dict(two, k3=(OTHER, 3), k4=(OTHER, 4)), exp1 + [S("Set", "k3", v(), d=50)],
             [[S("Range", k="k4", v=v(), fn=fn), S("Count")], [S("Set", "k3", v(), d=50)]])
@@ -250,6 +259,12 @@ def termination_families(kind, kt, vt, strat):
              S("LoadOrCompute", "k1", v()), S("Compute", "k1", v(), fn="del"), S("Store", "k2", v())]
     fam.append(base("T2-early-returns/%s[%s]" % (kind, kt), kind, kt, vt, pin_of(keys), [S("Store", "k1", v())],
                     [early, [S("Store", "k2", v()), S("Load", "k2"), S("Delete", "k2")]], ["k1", "k2", "k3"], strat))
+    # a delete of an absent key whose chain is completely full (the "new bucket" path), then the same bucket is locked again
+    slots_, _ = geom(kind)
+    fullc = {"k%d" % i: (FOCUS, i) for i in range(1, slots_ + 1)}
+    keys4 = dict(fullc, k51=(FOCUS, 51), k52=(FOCUS, 52))
+    fam.append(base("T4-full-chain-delete-absent/%s[%s]" % (kind, kt), kind, kt, vt, pin_of(keys4), [S("Store", k, v()) for k in sorted(fullc)],
+                    [[S("Delete", "k51"), S("Compute", "k52", v(), fn="del"), S("LoadAndDelete", "k51"), S("Store", "k1", v())], [S("Load", "k1"), S("Store", "k2", v())]], ["k1", "k2", "k51"], strat))
     # shrink abandoned / completed with waiters
     keys = {"k1": (FOCUS, 1), "k2": (OTHER, 2), "k3": (FOCUS2, 3)}
     pre = [S("BulkStore", lo=1, hi=thr + slots + 2), S("Store", "k1", v()), S("Store", "k2", v()), S("BulkDelete", lo=1, hi=thr + slots + 2)]
